@@ -711,6 +711,68 @@ def sweep_bases(fmt):
     return [SweepBase(fmt, fmt, d[:512], b'', [('head', 0, 512)])]
 
 
+VOLUME_IDS = [b'CD001', b'BEA01', b'BOOT2', b'CDW02', b'NSR02', b'NSR03', b'TEA01']     # ISO 9660 / ECMA-167 2/9
+
+
+def tile(unit, total):
+    return (unit * (total // len(unit) + 1))[:total]
+
+
+def repeated_structures(rng, quick=True):
+    """hostile streams that announce nothing through a length field but keep *repeating* a structure the
+    format recognises, at the stride the format expects it (ISO volume descriptors of every identifier from
+    sector 16 on, VHDX region tables / metadata tables / table entries, VMDK headers, markers and descriptor
+    sectors, partition tables, the fixed headers of the other formats), for longer than the bound"""
+    out = []
+
+    def add(fmt, tag, data, bounds=()):
+        out.append(Img(fmt, data, list(bounds), 'repeat/%s/%s' % (fmt, tag)))
+    long_ = {f: (9 << 18 if f == 'vmdk' else 768 * K) for f in FORMATS}
+    # ISO: every volume-structure identifier x descriptor type, and random sequences of them
+    for ident in VOLUME_IDS:
+        for dt in ([1, rng.choice([0, 2, 255])] if quick else [0, 1, 2, 255]):
+            sector = images.iso(ident=ident, desc_type=dt, total=34 * K)[0][32 * K:34 * K]
+            add('iso', '%s-type%d' % (ident.decode(), dt), bytes(32 * K) + tile(sector, long_['iso']), [32 * K, 34 * K, 36 * K])
+    for _ in range(2 if quick else 8):
+        seq = b''.join(images.iso(ident=rng.choice(VOLUME_IDS), desc_type=rng.choice([0, 1, 2, 255]), total=34 * K)[0][32 * K:34 * K]
+                       for _ in range(long_['iso'] // 2048))
+        add('iso', 'mixed', bytes([rng.choice([0, 0x41])]) * (32 * K) + seq, [32 * K, 34 * K])
+    # VHDX: tables full of the entry the inspector looks for; the tables themselves repeated
+    d = images.vhdx(meta_off=256 * K, item_off=192, total=320 * K)[0]
+    table, meta = d[H:H + K64], d[256 * K:320 * K]
+    add('vhdx', 'metadata-tables', d[:256 * K] + tile(meta, long_['vhdx']), [H, 256 * K, 320 * K])
+    add('vhdx', 'region-tables', d[:H] + tile(table, long_['vhdx'] + K64), [H, 256 * K])
+    add('vhdx', 'whole-header', tile(d, long_['vhdx'] + 320 * K), [H, 256 * K, 320 * K])
+    buf = bytearray(d[:256 * K] + bytes(long_['vhdx'] + K64))
+    for i in range(2047):            # every region entry is a metadata region, each somewhere else
+        buf[H + 16 + 32 * i:H + 48 + 32 * i] = images.GUID_META + struct.pack('<QII', 256 * K + 4096 * (i % 150), 0x100000, 1)
+    buf[H:H + 16] = struct.pack('<IIII', 0x69676572, 0, 2047, 0)
+    for k in range(0, long_['vhdx'], K64):
+        buf[256 * K + k:256 * K + k + 12] = struct.pack('<8sHH', b'metadata', 0, 2047)
+        for i in range(2047):        # every metadata entry is the virtual disk size, with a maximal length
+            o = 256 * K + k + 32 + 32 * i
+            buf[o:o + 28] = images.GUID_VDS + struct.pack('<III', K64 + 8 * i, U32, 0)
+    add('vhdx', 'all-entries-wanted', bytes(buf), [H, 256 * K, 320 * K])
+    # VMDK: header, descriptor sector, markers, footer header - each repeated
+    c = images.vmdk(footer=True, desc_num=1, body=0)[0]
+    h, desc, fm, fh, eos = (c[i:i + 512] for i in range(0, 2560, 512))
+    nf = images.vmdk(footer=False, desc_num=1, body=0)[0][:512]
+    n = long_['vmdk']
+    for tag, data in (('headers', tile(h, n)), ('footer-markers', h + desc + tile(fm, n)), ('footer-headers', h + desc + tile(fh, n)),
+                      ('eos-markers', h + desc + tile(eos, n)), ('footers', h + desc + tile(fm + fh + eos, n)),
+                      ('descriptors', h + tile(desc, n)), ('descriptors-nofooter', nf + tile(desc, n)),
+                      ('text-descriptors', tile(images.vmdk_text()[0], n)),
+                      ('createType-lines', tile(b'createType="monolithicSparse"\n', n))):
+        add('vmdk', tag, data, [64, 512, 1024, len(data) - 1536])
+    # the other formats: their fixed header repeated (GPT: also protective-MBR + GPT header sectors)
+    for fmt in ('qcow2', 'qed', 'vhd', 'vdi', 'gpt', 'luks', 'raw'):
+        c = clean_small(fmt)[0]
+        unit = c[:592] if fmt == 'luks' else c[:512].ljust(512, b'\0')
+        add(fmt, 'headers', tile(unit, long_[fmt]), [512, 592, 1024])
+    add('gpt', 'efi-part-sectors', clean_small('gpt')[0][:512] + tile(b'EFI PART'.ljust(512, b'\0'), long_['gpt']), [512, 1024])
+    return out
+
+
 def big_streams(rng, quick=True):
     """pure text, random data and multi-MiB streams for every inspector kind"""
     out = []
@@ -869,24 +931,104 @@ def known_class_images(rng, per_class=2):
 # --------------------------------------------------------------------------
 # model vs implementation on (format, bytes, chunking)
 
+FEEDS = ('bytes', 'bytearray', 'memoryview')
+
+
+class Feeder:
+    """hands the chunk bytes to eat_chunk as an object of the given kind.  Mutable buffers are reused
+    between calls when the size allows (the `n = f.readinto(buf); inspector.eat_chunk(buf)` idiom) and
+    are overwritten after every call: what the inspector concludes is a function of the bytes it was
+    shown, not of what the caller does with its buffer afterwards."""
+
+    def __init__(self, kind):
+        if kind not in FEEDS:
+            raise ValueError(kind)
+        self.kind, self.buf = kind, None
+
+    def give(self, chunk):
+        if self.kind == 'bytes':
+            return chunk
+        n = len(chunk)
+        if self.buf is None or len(self.buf) != n:
+            self.buf = bytearray(n)
+        self.buf[:] = chunk
+        return self.buf if self.kind == 'bytearray' else memoryview(self.buf)
+
+    def after(self):
+        if self.buf is not None:
+            self.buf[:] = b'\xee' * len(self.buf)
+
+
+_CTOR = {}
+
+
+def ctor_variants(fmt):
+    """every combination of the public boolean constructor arguments of the inspector class
+    (today: tracing), the default combination first"""
+    if fmt not in _CTOR:
+        import inspect
+        cls = insp_impl.fi().ALL_FORMATS[fmt]
+        names = [n for n, p in inspect.signature(cls.__init__).parameters.items()
+                 if n != 'self' and isinstance(p.default, bool)]
+        defaults = {n: inspect.signature(cls.__init__).parameters[n].default for n in names}
+        out = [{}]
+        for k in range(1, 1 << len(names)):
+            out.append({n: (not defaults[n]) for i, n in enumerate(names) if k >> i & 1})
+        _CTOR[fmt] = out
+    return _CTOR[fmt]
+
+
+def presentations(fmt):
+    """(feed kind, constructor kwargs) combinations other than the plain one"""
+    return [(f, c) for f in FEEDS for c in ctor_variants(fmt) if (f, c) != ('bytes', {})]
+
+
+def pick_presentation(fmt, rng, p_plain=0.5):
+    if rng.random() < p_plain:
+        return 'bytes', {}
+    return rng.choice(presentations(fmt))
+
+
 class Pair:
     """one correspondence case"""
-    __slots__ = ('img', 'sizes', 'ctag', 'trace', 'poke', 'kind')
+    __slots__ = ('img', 'sizes', 'ctag', 'trace', 'poke', 'kind', 'feed', 'ctor', 'allowed', 'expected')
 
-    def __init__(self, img, sizes, ctag, trace=False, poke=False, kind='insp'):
+    def __init__(self, img, sizes, ctag, trace=False, poke=False, kind='insp', feed='bytes', ctor=None,
+                 allowed=None, expected=None):
         self.img, self.sizes, self.ctag, self.trace, self.poke, self.kind = img, sizes, ctag, trace, poke, kind
+        self.feed, self.ctor, self.allowed, self.expected = feed, ctor or {}, allowed, expected
 
     def case(self):
         c = {'kind': self.kind, 'fmt': self.img.fmt, 'content': self.img.field, 'sizes': pack_sizes(self.sizes),
              'trace': 1 if self.trace else 0, 'tag': self.img.tag + ' ' + self.ctag}
+        if self.feed != 'bytes':
+            c['feed'] = self.feed
+        if self.ctor:
+            c['ctor'] = self.ctor
+        if self.poke:
+            c['poke'] = 1
+        if self.kind == 'wrap' and (self.allowed or self.expected):
+            c.update(allowed=self.allowed, expected=self.expected)
         if self.img.wellformed:            # lets the C07 search apply the declared-size oracle to a disagreeing case
             c.update(declared=self.img.declared, size_at=self.img.size_at, params=self.img.params)
         return c
 
     def line(self):
         if self.kind == 'wrap':
-            return wrap_line(self.img.field, self.sizes)
+            return wrap_line(self.img.field, self.sizes, self.allowed, self.expected)
         return insp_line(self.img.fmt, self.img.field, self.sizes, self.trace)
+
+
+def wrap_canon(line, expected):
+    """order-independent part of a wrap reply.  InspectWrapper keeps its inspectors in a *set*: when the expected
+    inspector aborts the stream, which of the others were already handed the aborting chunk depends on the set's
+    iteration order (the model iterates in ALL_FORMATS order).  After an abort only the decisions so far, the way
+    the reads ended and the expected inspector's own verdict are compared."""
+    f = line.split('\t')
+    if len(f) < 4 or f[1] == 'done' or not expected:
+        return line
+    own = [x for x in f[3].split(';') if x.split(' ', 1)[0].rstrip('!') == expected]
+    return '\t'.join([f[0], f[1]] + own)
 
 
 def poker(rng, p=0.3):
@@ -897,11 +1039,42 @@ def poker(rng, p=0.3):
     return q
 
 
+def run_insp_x(fmt, data, sizes, trace=False, query=None, feed='bytes', ctor=None):
+    """insp_impl.run_insp with the chunk object kind and the constructor arguments as parameters
+    (same rendering: trace, final state, verdict)"""
+    F = insp_impl.fi()
+    i = F.ALL_FORMATS[fmt](**(ctor or {}))
+    fd = Feeder(feed)
+    raised, tr, pos = None, [], 0
+    for n in sizes:
+        chunk = data[pos:pos + n]
+        pos += n
+        try:
+            i.eat_chunk(fd.give(chunk))
+        except Exception as e:
+            fd.after()
+            raised = insp_impl.errname(e)
+            if trace:
+                tr.append(insp_impl.show_state(i) + ' err=' + raised)
+            break
+        fd.after()
+        if query:
+            query(i)
+        if trace:
+            tr.append(insp_impl.show_state(i))
+    i.finish()
+    tail = insp_impl.show_state(i) + '\t' + insp_impl.show_verdict(i, raised)
+    return ('|'.join(tr) + '\t' + tail) if trace else tail
+
+
 def run_impl(pair, rng=None):
     if pair.kind == 'wrap':
-        return insp_impl.run_wrap(None, None, pair.img.data, pair.sizes)[0]
+        return insp_impl.run_wrap(pair.allowed, pair.expected, pair.img.data, pair.sizes)[0]
     q = poker(rng) if (pair.poke and rng is not None) else None
-    return insp_impl.run_insp(pair.img.fmt, pair.img.data, pair.sizes, trace=pair.trace, query=q)[0]
+    try:
+        return run_insp_x(pair.img.fmt, pair.img.data, pair.sizes, pair.trace, q, pair.feed, pair.ctor)
+    except Exception as e:                # e.g. a property that raises outside eat_chunk
+        return 'CRASH:%s:%s' % (type(e).__name__, e)
 
 
 def run_pairs(ctx, pairs, on_result=None, workers=WORKERS):
@@ -924,6 +1097,8 @@ def run_pairs(ctx, pairs, on_result=None, workers=WORKERS):
         ctx.count('fmt/' + p.img.fmt)
         if on_result:
             on_result(p, impl)
+        if p.kind == 'wrap':
+            impl, rep = wrap_canon(impl, p.expected), wrap_canon(rep, p.expected)
         if impl != rep:
             out.append(Disagreement(p.case(), impl[-1500:], rep[-1500:]))
     return out
@@ -945,42 +1120,49 @@ def pack_flat(sizes):
     return [tuple(x) if isinstance(x, list) else x for x in pack_sizes(sizes)]
 
 
-def model_replies(ctx, fmt, field, sizes_list, kind='insp'):
-    lines = [(wrap_line(field, s) if kind == 'wrap' else insp_line(fmt, field, s, False)) for s in sizes_list]
+def model_replies(ctx, fmt, field, sizes_list, kind='insp', allowed=None, expected=None):
+    lines = [(wrap_line(field, s, allowed, expected) if kind == 'wrap' else insp_line(fmt, field, s, False)) for s in sizes_list]
     return ask_parallel(ctx.driver, lines)
 
 
-def impl_final(fmt, data, sizes, kind='insp'):
+def impl_final(fmt, data, sizes, kind='insp', feed='bytes', ctor=None, allowed=None, expected=None):
     if kind == 'wrap':
-        return insp_impl.run_wrap(None, None, data, sizes)[0]
-    return insp_impl.run_insp(fmt, data, sizes)[0]
+        return insp_impl.run_wrap(allowed, expected, data, sizes)[0]
+    return run_insp_x(fmt, data, sizes, feed=feed, ctor=ctor)
 
 
 # --------------------------------------------------------------------------
 # implementation-only helpers for the searches
 
-def impl_run(fmt, data, sizes, query=None, every_chunk=None):
+def impl_run(fmt, data, sizes, query=None, every_chunk=None, feed='bytes', ctor=None):
     """feed the real inspector (wrapper discipline), finish; returns (verdict core, full string, inspector).
-    `every_chunk(inspector, position)` is called after every eat_chunk that returned."""
+    `every_chunk(inspector, position)` is called after every eat_chunk that returned.  `feed` is the kind of
+    object the chunks are presented as (see Feeder), `ctor` the constructor keyword arguments."""
     F = insp_impl.fi()
-    i = F.ALL_FORMATS[fmt]()
+    i = F.ALL_FORMATS[fmt](**(ctor or {}))
+    fd = Feeder(feed)
     raised, pos = None, 0
     for n in sizes:
         chunk = data[pos:pos + n]
         pos += n
         try:
-            i.eat_chunk(chunk)
+            i.eat_chunk(fd.give(chunk))
         except Exception as e:
+            fd.after()
             raised = insp_impl.errname(e)
             if every_chunk:
                 every_chunk(i, pos)
             break
+        fd.after()
         if query:
             query(i)
         if every_chunk:
             every_chunk(i, pos)
     i.finish()
-    v = insp_impl.show_verdict(i, raised)
+    try:
+        v = insp_impl.show_verdict(i, raised)
+    except Exception as e:
+        v = 'CRASH:%s' % type(e).__name__
     return core(v), v, i
 
 
